@@ -44,6 +44,19 @@ Apply(kept, ups) ==
 Updates == {[node |-> n, ts |-> t, tag |-> tg] : n \in Foreign, t \in 1..2, tg \in {"x", "y"}}
 UpdateSeqs == UNION {[1..k -> Updates] : k \in 1..3}
 
+(* selection of the peers for a replicated bundle (a DTLSR broadcast, an epidemic bundle) when several convergence layers may lead
+   to one node: links = the nodes the active layers lead to (with repetitions), sent = nodes served already, chosen = the nodes
+   of the layers selected (in order), after = the nodes noted as served afterwards. Every node not yet served is chosen exactly
+   once, no served node again, and the note afterwards names each node once. *)
+Count(seq, x) == Cardinality({i \in 1..Len(seq) : seq[i] = x})
+Range(seq) == {seq[i] : i \in 1..Len(seq)}
+SelectionProblems(r) ==
+  {p \in {"node-served-twice", "served-node-chosen-again", "node-not-served", "noted-twice"} :
+     CASE p = "node-served-twice" -> \E x \in Range(r.chosen) : Count(r.chosen, x) > 1
+       [] p = "served-node-chosen-again" -> Range(r.chosen) \cap Range(r.sent) # {}
+       [] p = "node-not-served" -> (Range(r.links) \ Range(r.sent)) \ Range(r.chosen) # {}
+       [] p = "noted-twice" -> \E x \in Range(r.after) : Count(r.after, x) > 1}
+
 VARIABLE c
 Init == IF Mode = "graphs" THEN c \in {g \in Graphs : GoodGraph(g)} ELSE c \in UpdateSeqs
 Next == UNCHANGED c
